@@ -157,7 +157,7 @@ def cases(tier, seed):
 def nontrivial(case, lines):
     return any(l.startswith("ok") for l in lines[1:])
 
-DESIGN_REF = "DESIGN.md section 8, C18"
+DESIGN_REF = "DESIGN.md section 0.2 (as built) and section 8, C18"
 TECHNIQUE = "Lean 4 refinement proof (byte buffer model refines a list FIFO for every operation history) + differential correspondence of model vs. C on explored states"
 LEVEL_TEXT = ("Machine-checked proof: for every operation list and every buffer satisfying the set-up contract the Lean model of "
               "byte-buffer.c keeps offset <= used <= size, never indexes outside its size octets and is observationally equal to a "
